@@ -1,16 +1,24 @@
 import MithrilModel.Proto
+import MithrilModel.Handlers.C00
 import MithrilModel.Handlers.C08
+import MithrilModel.Handlers.C09
+import MithrilModel.Handlers.C12
 import MithrilModel.Handlers.C17
 import MithrilModel.Handlers.C18
+import MithrilModel.Handlers.C20
 
 def dispatch (line : String) : String :=
   match Proto.parseReq line with
   | none => "bad-request"
   | some r =>
     let h : Option String :=
-      if r.op.startsWith "c08." then Handlers.C08.handle r
+      if r.op.startsWith "c00." then Handlers.C00.handle r
+      else if r.op.startsWith "c08." then Handlers.C08.handle r
+      else if r.op.startsWith "c09." then Handlers.C09.handle r
+      else if r.op.startsWith "c12." then Handlers.C12.handle r
       else if r.op.startsWith "c17." then Handlers.C17.handle r
       else if r.op.startsWith "c18." then Handlers.C18.handle r
+      else if r.op.startsWith "c20." then Handlers.C20.handle r
       else none
     h.getD "bad-request"
 
